@@ -7,6 +7,7 @@
 From Coq Require Import List ZArith Bool.
 Require Import MTX.Model.C42_Template MTX.Proofs.C42_Template.
 Require Import MTX.Model.C42_Life MTX.Proofs.C42_Life.
+Require Import MTX.Model.C42_SrcConf MTX.Proofs.C42_SrcConf.
 Import ListNotations.
 Local Open Scope Z_scope.
 
@@ -270,6 +271,40 @@ Example C42_life_example :
     [[99;97;109; 47; 102;114;111;110;116; 63; 113]] /\                                                 (* cam/front?q *)
   hook_env (p_ms s) = [(1, [99])].
 Proof. vm_compute. repeat split. Qed.
+
+(* ---- which configuration a source instance runs with (Model/C42_SrcConf.v) ----
+   Configurations are named by their generation (k = the one of the k-th hot reload); reloads ops is read off the
+   history. After EVERY history of start / stop / failure / retry / reload - reloads arriving while the instance runs,
+   while the source is stopped and during retryPause - the handler holds the configuration of the latest reload and
+   the effective configuration of a running instance is that one. *)
+Theorem C42_srcconf_latest : forall ops,
+  let s := crun cinit ops in
+  c_held s = reloads ops /\ (c_run s && c_alive s = true -> c_eff s = Some (reloads ops)).
+Proof. exact srcconf_latest. Qed.
+Print Assumptions C42_srcconf_latest.
+
+(* every instance created by a start or by the retry after a failure is given the configuration of the latest reload *)
+Theorem C42_srcconf_created : forall ops o,
+  (o = CStart \/ o = CRetry) ->
+  let s := crun cinit ops in let s' := cstep s o in
+  c_eff s = None -> c_eff s' <> None -> c_eff s' = Some (reloads ops).
+Proof. exact srcconf_created. Qed.
+Print Assumptions C42_srcconf_created.
+
+(* the pinned code before /repo b9e674a (ReloadConf returned early while the handler was stopped) violates it:
+   start, stop, reload, start runs the instance with configuration 0 *)
+Theorem C42_srcconf_pinned_refuted :
+  let ops := [CStart; CStop; CReload; CStart] in
+  c_eff (crun_with upd_pinned cinit ops) = Some 0 /\ reloads ops = 1 /\ c_eff (crun cinit ops) = Some 1.
+Proof. exact upd_pinned_refuted. Qed.
+Print Assumptions C42_srcconf_pinned_refuted.
+
+(* a chReloadConf case that is skipped during retryPause (seed C13-c) violates it: start, failure, reload, retry *)
+Theorem C42_srcconf_skip_while_recreating_refuted :
+  let ops := [CStart; CFail; CReload; CRetry] in
+  c_eff (crun_with upd_not_recreating cinit ops) = Some 0 /\ reloads ops = 1 /\ c_eff (crun cinit ops) = Some 1.
+Proof. exact upd_not_recreating_refuted. Qed.
+Print Assumptions C42_srcconf_skip_while_recreating_refuted.
 
 (* non-vacuity: rtsp://h/$G1/$G12?$MTX_QUERY with 12 groups is inside the guard *)
 Example C42_example :
